@@ -5,6 +5,8 @@ func init() {
 		ID:    "C13",
 		Title: "Errors name the line (and file) of the offending construct",
 		Rules: []string{
+			"R-EVALERR (same object): on the isError side of every recursive Eval the error object itself is returned, not a new error built at another node",
+			"R-LOOP (evaluator state): no field of an existing Evaluator is written while evaluating (a remembered \"current node\" is overwritten by nested evaluations)",
 			"R-ERRLINE (pairing): a program parsed from the file z is handed, together with a path, to a function that reports errors with that program's lines and that path only when the path is z",
 			"R-ERRLINE (same file): an error built while a component's program is linked into a page carries the page's path and a line of the page (the use, the slot), not a line of the component file",
 			"R-ERRLINE (who writes tokens): no store into a field of an existing token outside the lexer",
@@ -20,6 +22,10 @@ func init() {
 		NotDecided:  "TODO",
 		Assumptions: trustedBase,
 		Run: func(m *Model, s *Sink) {
+			m.errPassStrict = true
+			m.RunEvalErr(s, "R-EVALERR") // the error of a failing sub-evaluation is handed up as it is: it keeps the line of the construct that failed
+			m.errPassStrict = false
+			m.RunEvalState(s, "R-LOOP")        // the node an error is built from is the one being evaluated: no evaluator field carries a node across the recursion
 			m.RunProgPathPairs(s, "R-ERRLINE") // a program parsed from a file is handed on with that file's path
 			m.RunErrSameFile(s, "R-ERRLINE")   // a slot error of a component use carries a line of the file whose path it carries
 			m.RunNoReadPastEnd(s, "R-TOKPOS")  // an unterminated string or comment does not push the position past the input
